@@ -231,9 +231,8 @@ def _fl_klass(nd, p, rule):
         return "twin=second-Flatten-of-same-input"
     if 0 in p["xshape"] and "xshape" in nd and set(nd) <= {"xshape", "axis", "sym", "symstyle", "twin"}:
         return "xshape=static-size0-dim"
-    if nd.get("rt") == "zero":
-        keep = {k: v for k, v in nd.items() if k in ("axis", "sym", "rt")}
-        return ",".join(f"{k}={v}" for k, v in keep.items())
+    if nd.get("rt") == "zero" and set(nd) <= {"rt", "sym", "symstyle", "axis", "xshape"}:
+        return "sym=two-or-more-dims,rt=zero"
     return None
 
 
@@ -383,7 +382,14 @@ def _ss_near(p, rule):
         or S.is_nonconst(p) or p["xshape"][-1] % 2 == 1
 
 
-S.register(Space("slice_split", _ss_dims, _ss_build, near=_ss_near, prune=_ss_prune, max_dev={"thorough": 1}),
+def _ss_klass(nd, p, rule):
+    d = p["xshape"][-1]
+    if "xshape" in nd and (d % 2 == 1 or d == 0) and "ck" not in nd and "opset" not in nd:
+        return "xshape=last-dim-odd-or-0"
+    return None
+
+
+S.register(Space("slice_split", _ss_dims, _ss_build, near=_ss_near, prune=_ss_prune, klass=_ss_klass, max_dev={"thorough": 1}),
            rule_ids=["slice_split_rule"])
 
 
